@@ -26,6 +26,10 @@ CLAIMED["C15"] = ("Bounded symbolic model checking of IRIf / Split / CollectionP
          "Owner equivalence is decided by string equality modulo a trailing slash or by IRI.Equals with scheme comparison (itself the subject of C14). Longer hosts/segments are outside the claim.",
          "7 C15")
 
+CLAIMED["C09"] = ("Bounded symbolic model checking of ItemsEqual and the per-type Equals methods: reflexivity and copy-equality for every (type, field, value shape) cell generated from the struct definitions of the current tree (Object, Actor, Activity, Link in quick; all 14 types in thorough; shapes: IRI, object with/without id, link, actor, list, activity, 1-3 language values, instants, numbers) with symbolic id characters and texts; IRIs, item lists (incl. id-less members), value forms; the full nil matrix (10 nil-like kinds) against nil and non-nil in both argument orders; ids differing in host, path or query; types differing beyond case; and for every Object core property except mediaType/source and Activity's six relations, a copy whose property holds a different value (decided by an independent structural comparator) is unequal in both orders.",
+         "One property populated at a time (plus id and type). 'Different value' for item-valued properties means different ids/hrefs inside the value. Values nested deeper than one embedded level are outside the claim.",
+         "7 C09")
+
 NOT_YET = {}
 
 def main():
